@@ -577,7 +577,7 @@ static void run_top (top o) {
   case T_TICK:
     if (lco_on) expect_fail = -1;          /* (: call_other :) on an argument that has become 0 raises inside call_out() */
     snprintf (desc, sizeof desc, "tick"); vx_obs ("%s", desc);
-    ticks_done++; last_hb_id = -1; tick_err = do_tick (); failed = tick_err != 0; lco_on = 0; break;
+    ticks_done++; last_hb_id = -1; tick_err = do_tick (); failed = tick_err != 0; if (tick_err != 1) lco_on = 0; /* a round abandoned by a heart_beat error never reaches the call_out phase */ break;
   case T_CLEANUP:
     snprintf (desc, sizeof desc, "remove_destructed_objects"); vx_obs ("%s", desc);
     remove_destructed_objects ();
